@@ -7,10 +7,15 @@
 cd "$(dirname "$0")" || exit 2
 export GOFLAGS=-mod=mod GOPROXY=off GOSUMDB=off GOTOOLCHAIN=local
 mkdir -p bin evidence replays
+REPO="${VERIF_REPO:-/repo}"
+if [ "$REPO" != "/repo" ]; then
+  sed "s#=> /repo#=> $REPO#" go.mod > bin/alt.mod; cp go.sum bin/alt.sum
+  export GOFLAGS="-mod=mod -modfile=$PWD/bin/alt.mod"
+fi
 TMP=$(mktemp -d /tmp/verif-sched.XXXXXX) || exit 2
 trap 'rm -rf "$TMP"' EXIT
 go build -o bin/instr ./cmd/instr || { echo "HARNESS-ERROR: cannot build the instrumenter"; exit 2; }
-if ! ./bin/instr -repo /repo -out "$TMP" > "$TMP/overlay.json" 2> "$TMP/instr.log"; then
+if ! ./bin/instr -repo "$REPO" -out "$TMP" > "$TMP/overlay.json" 2> "$TMP/instr.log"; then
   echo "HARNESS-ERROR: instrumentation of /repo failed"; cat "$TMP/instr.log"; exit 2
 fi
 if ! go build -tags sched -overlay "$TMP/overlay.json" -o bin/vcheck-sched ./cmd/vcheck 2> "$TMP/build.log"; then
@@ -20,4 +25,4 @@ if ! go build -race -tags sched -overlay "$TMP/overlay.json" -o bin/vcheck-sched
   echo "HARNESS-ERROR: overlay -race build failed"; cat "$TMP/build-race.log"; exit 2
 fi
 [ "$1" = "prebuild" ] && exit 0
-VERIF_INSTR_REPORT="$TMP/instr-report.json" VERIF_RACE_BIN="$PWD/bin/vcheck-sched-race" ./bin/vcheck-sched "$@"
+VERIF_REPO="$REPO" VERIF_INSTR_REPORT="$TMP/instr-report.json" VERIF_RACE_BIN="$PWD/bin/vcheck-sched-race" ./bin/vcheck-sched "$@"
